@@ -38,8 +38,8 @@ type caseT struct {
 	Pattern string   `json:"pattern,omitempty"`
 }
 
-var enumAlphabet = []string{"1", "1.5", `"a"`, `"1"`, "true", "null", `"b"`, `"1.5"`, `"a\/b"`, `"\u0041\n\""`, "1.50", "20.05", "-0.100", `"\u0061\u0062"`, `"\ud83d\ude00"`}
-var enumProbes = []string{"1", "1.5", `"a"`, `"1"`, "true", "null", `"b"`, "2", `"A"`, "false", `"1.5"`, "1.50", `""`, `"true"`, `"a\/b"`, `"\u0041\n\""`, "20.05", "-0.100", "-0.1", "20.5", `"\u0061\u0062"`, `"ab"`, `"\ud83d\ude00"`, `"a\u0020b\u0020c"`}
+var enumAlphabet = []string{"1", "1.5", `"a"`, `"1"`, "true", "null", `"b"`, `"1.5"`, `"a\/b"`, `"\u0041\n\""`, "1.50", "20.05", "-0.100", `"\u0061\u0062"`, `"\ud83d\ude00"`, `""`, `" "`}
+var enumProbes = []string{"1", "1.5", `"a"`, `"1"`, "true", "null", `"b"`, "2", `"A"`, "false", `"1.5"`, "1.50", `""`, `"true"`, `"a\/b"`, `"\u0041\n\""`, "20.05", "-0.100", "-0.1", "20.5", `"\u0061\u0062"`, `"ab"`, `"\ud83d\ude00"`, `"a\u0020b\u0020c"`, `" "`}
 
 const nLayouts = 9
 
